@@ -77,7 +77,8 @@ pub struct Elab<'a> {
     pub errors: Vec<String>,
     pub pending_locks: Vec<(Expr, String, bool)>, // (place, field, panics when poisoned)
     pub pending_raii: Vec<Raii>,
-    pub block_moved: Option<Raii>, // the RAII local the block folded last moved out through its tail expression
+    pub block_moved: Option<Raii>,
+    pub hoisted: Vec<(String, String)>, // immutable locals initialised by a pure field read of `self` (name, expression as written) // the RAII local the block folded last moved out through its tail expression
     pub brk_stack: Vec<Option<Ident>>,
     pub self_rename: Option<Ident>,
     pub backparam: Option<(String, String)>, // (field, param) for this fn's impl type
@@ -870,6 +871,22 @@ impl<'a> Elab<'a> {
             }
         }
 
+        // `let x = self.a.b.c;` (immutable, a pure field read): remembered, so that loops of a function proved with loop isolation
+        // get the invariant `x == self.a.b.c` (the fact is otherwise lost inside the loop; see emit)
+        if let (Some(n), Pat::Ident(pi)) = (&name, &l.pat) {
+            fn pure_self_path(e: &Expr) -> bool {
+                match e {
+                    Expr::Path(p) => p.path.is_ident("self"),
+                    Expr::Field(f) => pure_self_path(&f.base),
+                    Expr::Paren(p) => pure_self_path(&p.expr),
+                    _ => false,
+                }
+            }
+            if pi.mutability.is_none() && pi.by_ref.is_none() && matches!(peel_paren(&init_expr), Expr::Field(_)) && pure_self_path(peel_paren(&init_expr)) && self.env.depth <= 1 {
+                let folded = self.fold_expr_quiet(init_expr.clone());
+                self.hoisted.push((n.clone(), expr_to_string(&folded).replace(" . ", ".")));
+            }
+        }
         // `let NEW = OLD;` with OLD a tracked RAII local: the value moves, the obligation to drop it moves with it
         if let (Some(n), Some(old)) = (&name, path_single_ident(peel_paren(&init_expr))) {
             if let Some(i) = self.find_raii(&old) {
@@ -2218,7 +2235,8 @@ impl<'a> Elab<'a> {
         // take a failure of, or after, such a loop for a violation (its invariant was written for another loop)
         let flag = proc_macro2::Literal::u32_unsuffixed(if by_text.is_none() && id < 100 && self.spec.loops.get(&id).map(|l| l.at.is_some()).unwrap_or(false) { 1 } else { 0 });
         let n = proc_macro2::Literal::u32_unsuffixed(id as u32);
-        parse_quote!(__vx_loop!(#n, #flag);)
+        let hoisted: Vec<proc_macro2::Literal> = self.hoisted.iter().map(|(a, b)| proc_macro2::Literal::string(&format!("{} == {}", a, b))).collect();
+        parse_quote!(__vx_loop!(#n, #flag #(, #hoisted)*);)
     }
 
     fn fold_loop_body(&mut self, b: Block) -> Block {
